@@ -1904,6 +1904,12 @@ hdf_xdr_cdf(XDR *xdrs, NC **handlep)
             break;
         case XDR_DECODE:
             if (FAIL == (status = hdf_read_xdr_cdf(xdrs, handlep))) {
+                /* fall back to the old SDS objects only when the file has no
+                   netCDF-style description at all: an error while reading
+                   one that exists must not silently yield another view of
+                   the file */
+                if (Vfindclass((*handlep)->hdf_file, _HDF_CDF) > 0)
+                    HGOTO_ERROR(DFE_BADNDG, FAIL);
                 status = hdf_read_sds_cdf(xdrs, handlep);
                 if (FAIL == status) {
                     HGOTO_ERROR(DFE_BADNDG, FAIL);
